@@ -48,6 +48,9 @@ def memShapeR (exact : Bool) (m : Ty → JsVal → Option Bool)
     match declared, extra with
     | some a, some b => some (a && b)
     | _, _ => none
+  -- an object that is not a plain one (a Map, a Set, a Date, a typed array): the validators take it for a value of an
+  -- object type (S4), the semantic engine files it under another tag — the reference does not judge it
+  | .map _ | .set _ | .date _ | .typed _ _ | .protoObj _ => none
   | _ => some false
 
 abbrev Shape := List (String × Bool × Ty) × Option (Ty × Ty)
